@@ -3,6 +3,7 @@ package harness
 import (
 	"bytes"
 	"fmt"
+	"path"
 	"sort"
 	"strings"
 
@@ -169,7 +170,14 @@ func c08Sizes(tier string) (truncP, truncT, flipP, flipT, cross, rderr, ill int)
 
 func (c08) NumCases(tier string) int {
 	a, b, c, d, e, f, g := c08Sizes(tier)
-	return a + b + c + d + e + f + g + c08OpFaultWorlds(tier)
+	return a + b + c + d + e + f + g + c08OpFaultWorlds(tier) + c08IllCrossN() + c08ScaleN() + c08TwoChangeN() + c08TreeWorlds(tier)
+}
+
+func c08TreeWorlds(tier string) int {
+	if tier == "thorough" {
+		return 60_000
+	}
+	return 3_000
 }
 
 func (c08) Describe() CheckInfo {
@@ -186,7 +194,7 @@ func (c08) Describe() CheckInfo {
 		},
 		RealCode:       []string{"gopatch main(), loader, internal/parse (section splitter, meta parser), internal/pgo (augmenter), internal/engine, patch.Parse/File.Apply"},
 		Stubs:          []string{"package os (patch delivered through simulated files and a chunked simulated stdin)", "path/filepath walk", "io/ioutil"},
-		RequiredProbes: []string{"trunc-patch", "trunc-target", "flip-patch", "flip-target", "cross", "read-error-fired", "ill-typed", "op-fault", "patch-rejected", "patch-accepted", "stdin-short-reads", "api-parse", "api-apply"},
+		RequiredProbes: []string{"trunc-patch", "trunc-target", "flip-patch", "flip-target", "cross", "read-error-fired", "ill-typed", "op-fault", "ill-cross", "scale", "two-change", "tree", "tree-symlink-cycle", "patch-rejected", "patch-accepted", "stdin-short-reads", "api-parse", "api-apply"},
 	}
 }
 
@@ -289,6 +297,49 @@ func (c08) Gen(env *Env, seed uint64, tier string, i int) *Case {
 		c.Extra["errat"] = fmt.Sprint(r.Intn(len(p.Data) + 1))
 		c.Extra["what"] = fmt.Sprintf("%s with EIO after %s bytes", p.Name, c.Extra["errat"])
 		c.Extra["key"] = p.Name
+	case i >= tp+tt+fp+ft+cr+re+il+c08OpFaultWorlds(tier):
+		j := i - (tp + tt + fp + ft + cr + re + il + c08OpFaultWorlds(tier))
+		switch {
+		case j < c08IllCrossN():
+			c.Sub = "ill-cross"
+			nm, pt, src := c08IllCross(j)
+			patch = pt
+			inputs = []CorpusFile{{Name: "t.go", Data: src}}
+			c.Extra["what"] = "generated ill-typed " + nm
+			c.Extra["key"] = nm
+		case j < c08IllCrossN()+c08ScaleN():
+			c.Sub = "scale"
+			nm, pt, src := c08Scale(j - c08IllCrossN())
+			patch = pt
+			inputs = []CorpusFile{{Name: "t.go", Data: src}}
+			c.Extra["what"] = nm
+			c.Extra["key"] = nm
+		case j < c08IllCrossN()+c08ScaleN()+c08TwoChangeN():
+			c.Sub = "two-change"
+			nm, pts, src := c08TwoChange(j - c08IllCrossN() - c08ScaleN())
+			patch = pts[0]
+			if len(pts) > 1 {
+				c.AddPatch("pa.patch", "p", pts[0], nil, nil)
+				patch = pts[1]
+				c.Extra["api_patch"] = string(pts[0]) + "\n" + string(pts[1])
+			}
+			inputs = []CorpusFile{{Name: "t.go", Data: src}}
+			c.Extra["what"] = nm
+			c.Extra["key"] = nm
+		default:
+			// directory trees with symlinks of every kind (also cyclic), fifos, odd
+			// names: enumeration must terminate and must not crash
+			t := Lookup("C15").Gen(env, seed, tier, j)
+			t.Prop, t.Sub = "C08", "tree"
+			t.Idx = i
+			t.Extra["what"] = "generated directory tree"
+			t.Extra["key"] = fmt.Sprint(len(t.Spec.Nodes))
+			if r.Chance(1, 2) {
+				c08AddSymlinkCycle(t, r)
+			}
+			t.RebuildArgs()
+			return t
+		}
 	case i >= tp+tt+fp+ft+cr+re+il:
 		// environment faults while an intact patch is applied in place: every
 		// operation of the run is failed once; gopatch must not crash or hang
@@ -315,7 +366,7 @@ func (c08) Gen(env *Env, seed uint64, tier string, i int) *Case {
 		c.Extra["key"] = it.name
 	}
 	via := "p"
-	if r.Chance(1, 2) {
+	if r.Chance(1, 2) && len(c.Patches) == 0 {
 		via = "stdin"
 		c.Spec.Knobs.StdinChunk = -r.Range(1, 64)
 	}
@@ -427,6 +478,9 @@ func (c08) Eval(env *Env, c *Case) []Violation {
 		vs = append(vs, Violation{Oracle: oracle, Signature: "C08/" + oracle + "/" + sig, Detail: detail + " [" + c.Sub + ": " + what + "; args " + fmt.Sprint(c.Spec.Args) + "]"})
 	}
 	env.Probe(c.Sub)
+	if c.Extra["symlink_cycle"] == "1" {
+		env.Probe("tree-symlink-cycle")
+	}
 	spec := c.Spec
 	if c.Sub == "op-fault" {
 		return c08OpFaults(env, c, add)
@@ -491,7 +545,11 @@ func (c08) Eval(env *Env, c *Case) []Violation {
 		}
 	}
 	// library API
-	ap, pres := ParseAPI(env.Prog, "p0.patch", c.Patches[0].Data)
+	apiPatch := []byte(c.Patches[0].Data)
+	if x := c.Extra["api_patch"]; x != "" {
+		apiPatch = []byte(x)
+	}
+	ap, pres := ParseAPI(env.Prog, "p0.patch", apiPatch)
 	env.Probe("api-parse")
 	HashBytes([]byte(pres.Key()))
 	switch {
@@ -518,4 +576,34 @@ func (c08) Eval(env *Env, c *Case) []Violation {
 		env.Stats.Sample(map[string]interface{}{"family": c.Sub, "what": what, "args": c.Spec.Args, "outcome": outcome, "exit": r.Exit, "stderr": clip(string(r.Stderr), 160)}, 4)
 	}
 	return vs
+}
+
+// c08AddSymlinkCycle plants directory symlinks that form a cycle which does not
+// pass through an ancestor link: a/to_b -> ../b and b/to_a -> ../a (also a
+// three-cycle and a self-referring link), below a directory named as an argument.
+func c08AddSymlinkCycle(c *Case, r *world.PRNG) {
+	base := ProjDir + "/" + r.Pick([]string{"cyc", "pkg/cyc", "a"})
+	names := []string{"p", "q", "s"}
+	n := r.Range(2, 3)
+	for k := 0; k < n; k++ {
+		d := base + "/" + names[k]
+		c.SetNode(world.NodeSpec{Path: base, Kind: "dir"})
+		c.SetNode(world.NodeSpec{Path: d, Kind: "dir"})
+		c.SetNode(world.NodeSpec{Path: d + "/x.go", Kind: "file", Data: c15GoFile(900 + k)})
+		next := names[(k+1)%n]
+		tgt := "../" + next
+		if r.Chance(1, 3) {
+			tgt = base + "/" + next
+		}
+		c.SetNode(world.NodeSpec{Path: d + "/to_" + next, Kind: "symlink", Target: tgt})
+	}
+	if r.Chance(1, 3) {
+		c.SetNode(world.NodeSpec{Path: base + "/self", Kind: "symlink", Target: "."})
+	}
+	// make sure the parent directories exist as nodes
+	for p := path.Dir(base); strings.HasPrefix(p, ProjDir+"/"); p = path.Dir(p) {
+		c.SetNode(world.NodeSpec{Path: p, Kind: "dir"})
+	}
+	c.Targets = append(c.Targets, r.Pick([]string{".", "./...", strings.TrimPrefix(base, ProjDir+"/"), base + "/..."}))
+	c.Extra["symlink_cycle"] = "1"
 }
